@@ -1,5 +1,24 @@
-from mulib import mu_check
+"""C02: no deadlock, no lost lock wake-up.
+Mu.tla exhaustively on 2-3 thread lock/rlock/trylock/unlock programs (every transition replayed, stuck terminal states judged on
+the code), random programs of 5 threads, recorded traces.  Plus: 4-thread programs on a build with LONG_WAIT_THRESHOLD = 2
+(guarded hook), where the long-wait escalation interacts with reader batches and woken waiters: too large for breadth-first
+search, so TLC's simulation mode supplies behaviours (every successor it generates along the way is replayed once);
+behaviours in which the code leaves the specification are continued from that point with random schedules (O-prog)."""
+from mulib import *
+import muconfigs
+
+
+def sim_part(run, exe_unused, results, env):
+    K2 = 2
+    exe2 = build("h_mu", extra_defs=kdefs(K2))
+    num = int(os.environ.get("VERIF_SIMNUM", {"quick": 30, "thorough": 400}[run.tier]))
+    progs = {"sim_k2_wrrw": [P("L", "U"), P("R", "RU", "R", "RU"), P("R", "RU", "R", "RU"), P("L", "U", "L", "U", "L", "U")],
+             "sim_k2_wwrt": [P("L", "U", "L", "U"), P("L", "U", "R", "RU"), P("R", "RU", "L", "U"), P("T", "RT", "L", "U")]}
+    fam = [(n, dict(progs=p, NV=1, K=K2, kthr=K2, _sim=(num, 700))) for n, p in progs.items()]
+    run_family(run, exe2, "C02", fam, env=env, workers=4, parallel=2)
+    run.cov["simulated_configurations"] = {"K": K2, "behaviours_per_worker": num, "workers": 4, "depth": 700}
 
 
 def main(tier, replay=None):
-    return mu_check("C02", tier, replay)
+    return mu_check("C02", tier, replay, post=sim_part,
+                    extra_rule="; 4-thread programs on the LONG_WAIT_THRESHOLD=2 build: behaviours from TLC's simulation mode, every generated transition replayed in lock-step")
